@@ -60,6 +60,18 @@ Theorem C10_host_normalisation : forall g s s' p,
 Proof. exact host_normalisation. Qed.
 Print Assumptions C10_host_normalisation.
 
+(* A request with Host header H is served by the owner of H whatever server name (SNI) the TLS connection it
+   arrived on was opened with: same ClusterInfo, same status; the SNI selects certificates only. *)
+Theorem C10_request_ignores_sni : forall ops, Forall legal ops ->
+  let w := run empty_world ops in
+  (forall host sni, resolve_request (w_gw w) host sni = resolve (w_gw w) host
+                    /\ request_code (w_gw w) host sni = filter_code (w_gw w) host)
+  /\ (forall o host sni, In o (w_api w) ->
+        (option_map i_cluster (resolve_request (w_gw w) host sni) = Some (lowname o)
+         <-> In (host_without_port host) (allnames o))).
+Proof. exact request_ignores_sni. Qed.
+Print Assumptions C10_request_ignores_sni.
+
 (* ---------------------------------------------------------------- non-vacuity *)
 Definition mk (name : string) (sn : list string) (cert key ca : Z) : obj :=
   {| o_name := name; o_gates := []; o_fc := []; o_sn := sn; o_cert := cert; o_key := key; o_ca := ca;
@@ -77,6 +89,8 @@ Example C10_history_nonvacuous :
   /\ map (resolve_cluster (w_gw (run empty_world demo))) ["a"; "X:443"; "y"; "B:6443"; "nosuch"]
      = [None; Some "b"; Some "b"; Some "b"; None]
   /\ tls_for (w_gw (run empty_world demo)) "X" = (2, 0, false)
+  /\ option_map i_cluster (resolve_request (w_gw (run empty_world demo)) "nosuch" "b") = None
+  /\ option_map i_cluster (resolve_request (w_gw (run empty_world demo)) "y:443" "nosuch") = Some "b"
   /\ map (fun ops => so_valid (snd (step (run empty_world (firstn ops demo)) (nth ops demo (ODelete "")))))
          [0; 1; 2; 3]%nat = [true; false; true; true].
 Proof. split; [repeat constructor|]. vm_compute. repeat split; reflexivity. Qed.
